@@ -20,7 +20,9 @@
       `data` stays at the first sibling after apply; plus (`lawr`, `lawm`): inputs unchanged, reverse(reverse(d)) = d and takes
       A to B, merge empty <=> diff(A,C) empty, the returned pointer is the first sibling.
 Generators: random S1 schemas (treegen; a batch without any user-ordered / state node = the fragment of the theorems),
-B = random edit of A, C = random edit of B / C = A / C = edit of A / independent / minimal; corpus/diff13 (witnesses of all
+B = random edit of A, C = random edit of B / C = A / C = edit of A / independent / minimal; a directed family `nested-twice`
+(the same container / list instances changed inside by both diffs); for every triple of the fragment the hypotheses of
+merge_apply_partial_tree are evaluated by the model (op `hyp3`) and counted by shape; corpus/diff13 (witnesses of all
 findings); exhaustive: all pairs of duplicate-free user-ordered sequences over <= 4 keys (reverse), all triples over 9 tiny
 per-node state spaces under the 4 option settings (merge).
 Known findings: F15 (reverse of user-ordered changes), F18 (merge without LYD_DIFF_DEFAULTS / with LYD_DIFF_MERGE_DEFAULTS),
@@ -397,6 +399,46 @@ def gen_triples(cx, s, rng, n):
         else:
             C, kind = g.tree(), "independent"
         out.append(Case(s, A, B, C, kind))
+    return out
+
+
+def deep_touch(g, forest, p):
+    """an edit that keeps every container / list instance and changes, INSIDE them at any depth, leaves and leaf-lists with
+    probability p (value, default-ness, create / delete of leaves and leaf-list instances)"""
+    def level(skids, insts):
+        out = []
+        for sn in skids:
+            if not sn.is_data():
+                out += [n for n in insts if g.under(n.sn, sn)]          # a choice: its case is kept as it is
+                continue
+            mine = [n for n in insts if n.sn is sn]
+            if sn.kind == "container":
+                for n in mine:
+                    n.kids = level(sn.kids, n.kids)
+                out += mine
+            elif sn.kind == "list":
+                nk = len(sn.keys)
+                for n in mine:
+                    n.kids = n.kids[:nk] + level(sn.kids[nk:], n.kids[nk:])
+                out += mine
+            elif g.rng.random() < p:
+                out += g.mutate(sn, mine, 1.0)
+            else:
+                out += mine
+        return out
+    return tg.canon(level(g.s.top, [n.clone() for n in forest]))
+
+
+def gen_nested_twice(cx, s, rng, n):
+    """directed family for merge_apply_partial_tree (Props/C13Tree.lean): the SAME container / list instances are changed inside
+    by both diffs (leaf cells below `none` + `none` inner nodes, at any depth) — rare among the random chains"""
+    g = tg.TreeGen(rng, s, density=0.9, max_inst=rng.choice([3, 4]))
+    out = []
+    for _ in range(n):
+        A = g.tree()
+        B = deep_touch(g, A, rng.choice([0.4, 0.7]))
+        C = deep_touch(g, B, rng.choice([0.4, 0.7]))
+        out.append(Case(s, A, B, C, "nested-twice"))
     return out
 
 
@@ -782,6 +824,8 @@ def run(cx):
         cases = []
         for i, s in enumerate(schemas[lo:lo + chunk]):
             cases += gen_triples(cx, s, cx.sub_rng("triples%d" % (lo + i)), per)
+            if not any(n.is_userord() or n.dup_inst() for n in s.nodes) and any(n.kind == "list" for n in s.nodes):
+                cases += gen_nested_twice(cx, s, cx.sub_rng("nested%d" % (lo + i)), cx.n(10, 60))
         process(cx, schemas[lo:lo + chunk], cases, tag="rand%d" % lo)
     exhaustive_reverse(cx)
     exhaustive_merge(cx)
